@@ -79,8 +79,10 @@ def gen_history(cat, prop, seed, h, tier):
                 rest = [i for i in ids if not ent[i].get("always")]
                 by_f[f] = sorted(must + rng.sample(rest, max(0, per - len(must))))
     ids_all = [i for f in chosen for i in by_f[f]]
-    dask_ids = [i for i in ids_all if ent[i]["backend"] == "dask" and ent[i]["identity"] in ("same", "hotspots")
-                and not ent[i].get("expect_error")]
+    # Dask entries whose result is one lazy raster (joint computes, deferred computes)
+    dask_ids = [i for i in ids_all if ent[i]["backend"] == "dask" and not ent[i].get("expect_error")
+                and (ent[i]["identity"] in ("same", "hotspots")
+                     or ent[i]["op"] in ("perlin", "generate_terrain", "true_color", "focal_stats"))]
     used_rids = {r for i in ids_all for r in ent[i]["rasters"]}
     twins_here = [t for t in cat.get("twins", []) if t[0] in used_rids and t[1] in used_rids]
     L = rng.randint(30, 90) if tier == "quick" else rng.randint(60, 400)
@@ -104,7 +106,12 @@ def gen_history(cat, prop, seed, h, tier):
     first.sort(key=lambda i: 0 if ent[i].get("always") else 1)
     for i in first[: max(10, L // 2)]:
         push_call(i)
+    pending = []
     while len(ops) < L:
+        if pending and len(ops) >= pending[0]:
+            pending.pop(0)
+            ops.append({"k": "force"})
+            continue
         r = rng.random()
         if r < 0.40 or prev is None:
             push_call(rng.choice(ids_all))
@@ -126,6 +133,13 @@ def gen_history(cat, prop, seed, h, tier):
             if a != b and heavy_left > 1:
                 heavy_left -= 2 if ent[a]["heavy"] else 0
                 ops.append({"k": "joint", "e": [a, b]})
+        elif r < 0.935 and prop == "C11" and dask_ids and heavy_left > 0:
+            # a lazy result left pending while other calls are made, computed later
+            a = rng.choice(dask_ids)
+            if ent[a]["heavy"]:
+                heavy_left -= 1
+            ops.append({"k": "defer", "e": a})
+            pending.append(len(ops) + rng.randint(2, 8))
         elif r < 0.94 and prop == "C11" and twins_here:
             # the user edits a live raster in place (it becomes its twin), then calls again
             a, b = rng.choice(twins_here)
@@ -145,8 +159,16 @@ def gen_history(cat, prop, seed, h, tier):
             ops.append({"k": "interrupt", "e": rng.choice(ids_all), "at": rng.randint(1, 40)})
         else:
             push_call(rng.choice(ids_all))
+    for _ in pending:
+        ops.append({"k": "force"})
     if prop == "C11":
         kinds = {o["k"] for o in ops}
+        gens = [i for i in dask_ids if ent[i]["op"] in ("perlin", "generate_terrain")]
+        others = [i for i in ids_all if ent[i]["op"] in ("perlin", "generate_terrain") and i not in gens]
+        if gens and len(others) >= 2:
+            # a pending generator result across generator calls with other seeds
+            ops += [{"k": "defer", "e": rng.choice(gens)}] + [{"k": "call", "e": i} for i in rng.sample(others, min(3, len(others)))] \
+                + [{"k": "force"}]
         if "joint" not in kinds and len(dask_ids) >= 2:
             a = rng.choice(dask_ids)
             same = [i for i in dask_ids if i != a and ent[i][fkey] == ent[a][fkey]]
@@ -230,10 +252,16 @@ def run_history(prop, cat, hist, refs, start=0, max_violations=3):
             key = (rid, e["backend"], util.canon(e["chunks"].get(rid)) if e["backend"] == "dask" else "")
             if shared and not e["private"]:
                 r = pool.get(key)
-                if r is None or r.problems():
+                probs = r.problems() if r is not None else []
+                if r is not None and probs and prop == "C11" and not all(p_[0] == "dtype_changed" for p_ in probs):
+                    # an earlier call left the user's raster modified.  The user passes the same object
+                    # again; C11 compares the result with what a fresh interpreter returns for the
+                    # pristine raster - so the raster is NOT repaired here (only the documented dtype
+                    # widening by viewshed is)
+                    res["notes"]["argument_left_modified_by_an_earlier_call"] += 1
+                    probs = []
+                if r is None or probs:
                     if r is not None:
-                        # an earlier call left this raster modified: C10's matter (reported there);
-                        # keep C11 about results, not about arguments that were changed
                         res["notes"]["pool_raster_restored"] += 1
                     r = histsim.PoolRaster(rid, pool_specs[rid], e["backend"], e["chunks"].get(rid))
                     pool[key] = r
@@ -376,6 +404,59 @@ def run_history(prop, cat, hist, refs, start=0, max_violations=3):
                                                  "got_digest": dg, "want_digest": ref["digest"], "_canon": canon})
         prev_entry = eb
 
+    deferred = []
+
+    def run_defer(step, e):
+        """Build the lazy result now, compute it later (run_force)."""
+        import warnings
+        from .cases import OPS
+        rs_ = get_rasters(e)
+        try:
+            with warnings.catch_warnings():
+                warnings.simplefilter("ignore")
+                with np.errstate(all="ignore"):
+                    lazy = OPS[e["op"]]([r.da for r in rs_], e["params"])
+        except Exception as exc:
+            res["notes"]["defer_raised:%s" % type(exc).__name__] += 1
+            return
+        deferred.append((e, lazy, rs_))
+        res["faults"]["deferred_compute"] += 1
+
+    def run_force(step):
+        nonlocal prev_entry
+        if not deferred:
+            return
+        import random as _random
+        import warnings
+        from . import determinism
+        from .graphsim import SimScheduler, under
+        e, lazy, rs_ = deferred.pop(0)
+        pol = draw_policy(rng)
+        seed = util.derive_seed(hist["sched_seed"], step, "force")
+        determinism.reseed(util.derive_seed(seed, "uuid"))
+        sim = SimScheduler(_random.Random(util.derive_seed(seed, "sched")), policy=pol[0], policy_arg=pol[1])
+        try:
+            with warnings.catch_warnings():
+                warnings.simplefilter("ignore")
+                with np.errstate(all="ignore"), under(sim):
+                    canon = histsim.canon_result(lazy)
+        except Exception as exc:
+            if prop == "C11":
+                violation(step, "force", e, {"class": "deferred_compute_raises",
+                                             "exc": {"type": type(exc).__name__, "msg": str(exc)[:300]}})
+            return
+        dg = histsim.result_digest(canon)
+        res["calls"] += 1
+        res["dask_calls"] += 1
+        res["sim_steps"] += sim.step
+        trace.update(("%d|f%d|%s;" % (step, e["id"], dg)).encode())
+        if prop == "C11":
+            ref = refs.get(str(e["id"]))
+            if ref is not None and ref["digest"] != dg:
+                violation(step, "force", e, {"class": "result_differs_from_fresh_interpreter",
+                                             "computed_after_other_calls": True,
+                                             "got_digest": dg, "want_digest": ref["digest"], "_canon": canon})
+
     ops = hist["ops"]
     i = start
     while i < len(ops):
@@ -412,6 +493,10 @@ def run_history(prop, cat, hist, refs, start=0, max_violations=3):
                                                              "raster": r.rid, "detail": detail})
         elif k == "joint":
             run_joint(i, ent[op["e"][0]], ent[op["e"][1]])
+        elif k == "defer":
+            run_defer(i, ent[op["e"]])
+        elif k == "force":
+            run_force(i)
         elif k == "edit":
             n_edit = 0
             if shared:
